@@ -563,7 +563,7 @@ Definition write_slab_as (ro : bool) (a : arr) (mem : dtype) (off cnt : list Z) 
 
 (** THE line to flip once the create-and-fill template removes the array again when the write fails
     (notes/proposed-fixes/C01-create-fill-rollback.patch) *)
-Definition create_fill_rolls_back : bool := false.
+Definition create_fill_rolls_back : bool := true.
 
 (** template Block::createDataArray(name, type, const T &data, DataType data_type, compression):
     element type [elem] of the container, stored type [stored] (data_type, or the element type for
